@@ -646,11 +646,53 @@ package router
 //@ iface gopacket.DecodingLayer.NextLayerType
 //@   modifies nothing
 //@   ensures result == nextLT(self)
-//@ # building the reply packet (reversed path, addresses, quote, checksum, authenticator) is not interpreted
+//@ # ---- building the reply packet. Serialization, path decoding/reversal, DRKey and MAC computation are not
+//@ # interpreted (assumed frames, callmod); what is decided is what prepareSCMP hands to them:
+//@ iface gopacket.SerializableLayer.SerializeTo
+//@   modifies nothing
+//@ iface path.Path.Type
+//@   modifies nothing
+//@ iface drkeyProvider.GetASHostKey
+//@   modifies nothing
 //@ func (*slowPathPacketProcessor).prepareSCMP
-//@   trusted
-//@   # assumed frame: the packet (fields and bytes) and scratch buffers of the processor, never the processor's pointers
-//@   modifies *p.pkt, *p.pkt.buffer, arr(p.pkt.RawPacket), arr(p.macInputBuffer), scmpPrepared
+//@   props C09 C10
+//@   nosafety
+//@   maxpaths 20000
+//@   opaque (*github.com/scionproto/scion/pkg/slayers.SCION).DstAddr
+//@   callmod (*github.com/scionproto/scion/pkg/slayers.SCION).DstAddr: nothing
+//@   opaque (*github.com/scionproto/scion/pkg/slayers.SCMP).SerializeTo (*github.com/scionproto/scion/pkg/slayers.SCION).SerializeTo (*github.com/scionproto/scion/pkg/slayers.EndToEndExtn).SerializeTo (*slowPathPacketProcessor).resetSPAOMetadata (*slowPathPacketProcessor).hasValidAuth github.com/scionproto/scion/pkg/spao.ComputeAuthCMAC
+//@   callmod (*github.com/scionproto/scion/pkg/slayers.SCMP).SerializeTo: *a0
+//@   callmod (*github.com/scionproto/scion/pkg/slayers.SCION).SerializeTo: *a0
+//@   callmod (*github.com/scionproto/scion/pkg/slayers.EndToEndExtn).SerializeTo: *a0
+//@   callmod (*slowPathPacketProcessor).resetSPAOMetadata: p.optAuth
+//@   callmod (*slowPathPacketProcessor).hasValidAuth: arr(p.macInputBuffer)
+//@   callmod github.com/scionproto/scion/pkg/spao.ComputeAuthCMAC: arr(p.macInputBuffer)
+//@   requires p != nil && p.pkt != nil && p.pkt.Link != nil && p.d != nil && p.scionLayer.Path != nil
+//@   # the offending packet's path as decoded (C19: Base.DecodeFromBytes): a standard SCION path
+//@   requires typeis(p.scionLayer.Path, *scion.Raw) && asptr(p.scionLayer.Path, *scion.Raw) != nil
+//@   let op = asptr(p.scionLayer.Path, *scion.Raw)
+//@   let h0 = op.NumHops
+//@   let c0 = int(op.PathMeta.CurrHF)
+//@   requires scion.baseOK(op.PathMeta.SegLen[0], op.PathMeta.SegLen[1], op.PathMeta.SegLen[2], op.NumINF, op.NumHops)
+//@   # C10: the reply travels the reversed path: same hops, segments in reverse order, and the current hop is the mirror
+//@   # image of the offending packet's current hop - advanced by one where the packet had already been switched to the
+//@   # next segment, and by one more when the reply leaves over an external link
+//@   callpre (*github.com/scionproto/scion/pkg/slayers.SCION).SerializeTo: typeis(a0.Path, *scion.Decoded) && asptr(a0.Path, *scion.Decoded).NumHops == h0 && asptr(a0.Path, *scion.Decoded).NumINF == op.NumINF
+//@   callpre (*github.com/scionproto/scion/pkg/slayers.SCION).SerializeTo: asptr(a0.Path, *scion.Decoded).PathMeta.SegLen[0] == old(op.PathMeta.SegLen[op.NumINF-1]) && asptr(a0.Path, *scion.Decoded).PathMeta.SegLen[op.NumINF-1] == old(op.PathMeta.SegLen[0])
+//@   callpre (*github.com/scionproto/scion/pkg/slayers.SCION).SerializeTo: int(asptr(a0.Path, *scion.Decoded).PathMeta.CurrHF) >= h0-1-c0 + ite(linkScope(p.pkt.Link) == External, 1, 0) && int(asptr(a0.Path, *scion.Decoded).PathMeta.CurrHF) <= h0-1-c0 + 1 + ite(linkScope(p.pkt.Link) == External, 1, 0)
+//@   # C09: the SCION header handed to serialization is addressed to the offending packet's source ISD-AS and host,
+//@   # comes from the local ISD-AS and the router's own host address, keeps flow id and traffic class, carries a
+//@   # standard SCION path, and announces SCMP (behind the authenticator extension when authenticated)
+//@   callpre (*github.com/scionproto/scion/pkg/slayers.SCION).SerializeTo: a0.DstIA == p.scionLayer.SrcIA && a0.SrcIA == p.d.localIA
+//@   callpre (*github.com/scionproto/scion/pkg/slayers.SCION).SerializeTo: a0.DstAddrType == p.scionLayer.SrcAddrType && a0.RawDstAddr == p.scionLayer.RawSrcAddr
+//@   callpre (*github.com/scionproto/scion/pkg/slayers.SCION).SerializeTo: a0.SrcAddrType == slayers.packedType(p.d.localHost) && len(a0.RawSrcAddr) == slayers.packedLen(p.d.localHost) && (forall j int :: 0 <= j && j < len(a0.RawSrcAddr) ==> a0.RawSrcAddr[j] == slayers.packedByte(p.d.localHost, j))
+//@   callpre (*github.com/scionproto/scion/pkg/slayers.SCION).SerializeTo: a0.FlowID == p.scionLayer.FlowID && a0.TrafficClass == p.scionLayer.TrafficClass && a0.PathType == 1
+//@   callpre (*github.com/scionproto/scion/pkg/slayers.SCION).SerializeTo: a0.NextHdr == slayers.L4SCMP || a0.NextHdr == slayers.End2EndClass
+//@   # the quoted prefix of the offending packet is cut so that computed header length + quote stays within 1232 bytes
+//@   # (asserted where the quote is placed in the buffer, i.e. on the in-place path)
+//@   callpre (*serializeProxy).AppendBytes: 0 <= a1 && a1 + hdrLen <= slayers.MaxSCMPPacketLen
+//@   # the SCMP header carries the requested type and code
+//@   callpre (*github.com/scionproto/scion/pkg/slayers.SCMP).SerializeTo: a0.TypeCode == slayers.SCMPTypeCode(uint16(typ)<<8|uint16(code))
 //@   gset scmpPrepared := old(scmpPrepared) + 1
 //@ # when the upper layer of the offending packet is SCMP, a reply is built only if its header decodes (4 bytes) and
 //@ # its type is informational (> 127): everything else is dropped with an error before prepareSCMP runs
